@@ -14,7 +14,7 @@
                               (junk, every 1-bit corruption, short and empty strings included)
      wf_ctrl c            :=  NoDup (map p_id c)   (controller.pairings is a dict keyed by id) *)
 From Coq Require Import List NArith ZArith Arith Bool Lia Sorted.
-From AHK Require Import Lib.ByteStr Model.Bcast Proofs.Bcast Proofs.BcastHist Proofs.BcastTop Proofs.BcastOps.
+From AHK Require Import Lib.ByteStr Model.Bcast Proofs.Bcast Proofs.BcastHist Proofs.BcastTop Proofs.BcastOps Proofs.BcastExt.
 Import ListNotations.
 Open Scope N_scope.
 
@@ -138,13 +138,16 @@ Theorem bcast_other_routes_set_stored : forall c j p i n o,
   sn_at (fst (fst (apply c o))) j = Some n.
 Proof. exact (op_sets 98). Qed.
 
-(* Over any history of operations that is forward for pairing j (numbers written by the
+(* (the operations now include OSetKey, key regeneration; the key conjunct holds for histories
+   that do not regenerate this pairing's key, as before)
+   Over any history of operations that is forward for pairing j (numbers written by the
    other routes do not go back; a restart finds the persisted copy in step), the number
    pairing j knows never decreases ... *)
 Theorem bcast_ops_monotone : forall c h j p,
   wf_ctrl c -> fwd_hist 98 c j h -> nth_error c j = Some p ->
   exists q, nth_error (final_ops c h) j = Some q /\
-            p_id q = p_id p /\ p_key q = p_key p /\ p_chars q = p_chars p /\ sn_le (p_sn p) (p_sn q).
+            p_id q = p_id p /\ (Forall (keeps_key (p_id p)) h -> p_key q = p_key p) /\
+            p_chars q = p_chars p /\ sn_le (p_sn p) (p_sn q).
 Proof. exact (final_ops_j 98). Qed.
 
 (* ... hence a number learned by ANY route (accepted broadcast, connection, poll,
@@ -157,6 +160,93 @@ Theorem bcast_no_replay_ops : forall c h j p s hdr k m a pt,
   let r := detect c2 (hdr, PSeal k m a pt) in
   sn_at (fst (fst r)) j = sn_at c2 j /\ calls_for (p_id p) (snd r) = [].
 Proof. exact (ops_no_replay 98). Qed.
+
+(* ---- delivered or not (repaired behaviour, fix 242be4e) ---------------------------
+   An authentic fresh notification ALWAYS advances the stored number to n and raises nothing;
+   the listeners are called exactly when the characteristic is known and the value decodes;
+   the poll fallback is taken exactly when the characteristic is unknown (or accessory 1 is
+   missing: empty database). *)
+Theorem bcast_fresh_always_advances : forall p a body n pt,
+  fresh_w 98 p a body n pt ->
+  exists o cl, notify p a body = (with_sn p n, o, cl) /\
+    ((o = OAccepted /\ exists f v, find_char (iid_of pt) (p_chars p) = Some f /\
+                                   from_bytes f (value_of pt) = inr v /\ cl = [(p_id p, 1, iid_of pt, v)])
+     \/ (exists ck, o = OUndelivered ck /\ cl = [])) /\
+    (falls_back o = true <-> find_char (iid_of pt) (p_chars p) = None).
+Proof. exact (fresh_always_advances 98). Qed.
+
+(* ... and its replay is ignored, whether or not the value could be delivered *)
+Theorem bcast_replay_ignored_delivered_or_not : forall p a body n pt,
+  fresh_w 98 p a body n pt ->
+  exists o, notify (with_sn p n) a body = (with_sn p n, o, []).
+Proof. exact (replay_after_fresh 98). Qed.
+
+(* ---- the inner counter has 16 bits --------------------------------------------------
+   exact window for plaintexts made of bytes: s < n <= min (s + 99, 65535) *)
+Theorem bcast_accept_bound_16bit : forall p a body n pt,
+  fresh_w 98 p a body n pt -> all_bytes pt = true -> n <= 65535.
+Proof. exact (fresh_bound 98). Qed.
+
+(* a pairing that stores 65535 or more accepts no broadcast at all; only another route
+   (poll, regular advertisement, the roll-over handling) moves it on *)
+Theorem bcast_dead_at_max : forall c hdr k m a pt c' o cl j p s,
+  wf_ctrl c -> detect c (hdr, PSeal k m a pt) = (c', o, cl) -> nth_error c j = Some p ->
+  p_sn p = Some s -> 65535 <= s -> all_bytes pt = true ->
+  nth_error c' j = Some p /\ calls_for (p_id p) cl = [].
+Proof. exact (dead_at_max 98). Qed.
+
+(* ---- broadcast key (re)generation on a long-lived pairing ----------------------------
+   After _async_set_broadcast_encryption_key installed key k', everything sealed under any
+   other key - in particular every notification of the previous key epoch, whatever its
+   counter - is ignored (this is what makes the 65535 -> 1 roll-over safe). *)
+Theorem bcast_rotated_old_key_ignored : forall c j p k' hdr k m a pt,
+  wf_ctrl c -> nth_error c j = Some p -> p_sig p = true -> k <> k' ->
+  let c1 := fst (fst (apply c (OSetKey (p_id p) k'))) in
+  let r := detect c1 (hdr, PSeal k m a pt) in
+  nth_error (fst (fst r)) j = Some (with_key p k') /\ calls_for (p_id p) (snd r) = [].
+Proof. exact (rotated_old_key_ignored 98). Qed.
+
+Theorem bcast_setkey_needs_signature_char : forall c j p k',
+  wf_ctrl c -> nth_error c j = Some p -> p_sig p = false ->
+  nth_error (fst (fst (apply c (OSetKey (p_id p) k')))) j = Some p.
+Proof. exact (setkey_without_sig 98). Qed.
+
+(* roll-over as the code handles it (number := 1 AND a new key): old epoch ignored, new
+   epoch accepted, a restart keeps the new key *)
+Example c18_rollover_with_rotation :
+  let '(c1, o1, _) := apply [rx_p 65534] (OAdv (rx_seal 7 65535)) in
+  let '(c2, o2, _) := apply c1 (OAdv (rx_seal 7 65536)) in
+  let '(c3, _, _) := apply c2 (OSetKey rx_id 8) in
+  let '(c4, _, _) := apply c3 (OUpdate rx_id 1) in
+  let '(c5, o5, _) := apply c4 (OAdv (rx_seal 7 2)) in
+  let '(c6, _, _) := apply c5 ORestart in
+  let '(c7, o7, cl7) := apply c6 (OAdv (rx_seal 8 2)) in
+  (o1, map p_sn c1) = (OAccepted, [Some 65535]) /\ o2 = OMismatch /\
+  (o5, map p_sn c5) = (ONoDecrypt, [Some 1]) /\
+  (o7, cl7, map p_sn c7, map p_key c7) = (OAccepted, [(rx_id, 1, 11, VInt 42)], [Some 2], [Some 8]).
+Proof. exact rollover_with_rotation. Qed.
+
+(* Observation: a roll-over of the number WITHOUT a new key re-admits the previous epoch *)
+Example c18_rollover_without_rotation_observation :
+  let '(c1, o1, _) := apply [rx_p 1] (OAdv (rx_seal 7 2)) in
+  let '(c2, o2, _) := apply c1 (OAdv (rx_seal 7 2)) in
+  let '(c3, _, _) := apply c2 (OUpdate rx_id 65535) in
+  let '(c4, _, _) := apply c3 (OUpdate rx_id 1) in
+  let '(c5, o5, cl5) := apply c4 (OAdv (rx_seal 7 2)) in
+  o1 = OAccepted /\ o2 = OStale /\ (o5, cl5) = (OAccepted, [(rx_id, 1, 11, VInt 42)]).
+Proof. exact rollover_without_rotation_replay. Qed.
+
+(* undelivered but advanced: unknown iid (poll fallback), its replay, a short value *)
+Example c18_undelivered_example :
+  let f1 := ([17;54;1;2;3;4;5;6], PSeal 7 11 rx_id [11;0;99;0;42;0;0;0;0;0;0;0]) in
+  let f2 := ([17;54;1;2;3;4;5;6], PSeal 7 12 rx_id [12;0;11;0]) in
+  let '(c1, o1, cl1) := apply [rx_p 10] (OAdv f1) in
+  let '(c2, o2, cl2) := apply c1 (OAdv f1) in
+  let '(c3, o3, cl3) := apply c2 (OAdv f2) in
+  (o1, cl1, map p_sn c1, falls_back o1) = (OUndelivered CkNoChar, [], [Some 11], true) /\
+  (o2, cl2, map p_sn c2) = (OStale, [], [Some 11]) /\
+  (o3, cl3, map p_sn c3, falls_back o3) = (OUndelivered CkStruct, [], [Some 12], false).
+Proof. exact undelivered_example. Qed.
 
 (* the scenario: S+1 accepted, a connection reports S+6 (persisted copy still S), the old
    S+3 is ignored, S+7 accepted *)
@@ -227,3 +317,9 @@ Print Assumptions bcast_persisted_copy_unchanged.
 Print Assumptions bcast_other_routes_set_stored.
 Print Assumptions bcast_ops_monotone.
 Print Assumptions bcast_no_replay_ops.
+Print Assumptions bcast_fresh_always_advances.
+Print Assumptions bcast_replay_ignored_delivered_or_not.
+Print Assumptions bcast_accept_bound_16bit.
+Print Assumptions bcast_dead_at_max.
+Print Assumptions bcast_rotated_old_key_ignored.
+Print Assumptions bcast_setkey_needs_signature_char.
